@@ -104,7 +104,7 @@ func newC18Vals() *c18Vals {
 	}
 	sc := &core.CertificateChainEntry{RawCertificate: v.signer.Cert.Raw, Certificate: v.signer.Cert}
 	v.ops = append(v.ops, c18Op{Name: "signer(ca)", Do: func(s crlstore.CRLStore) error { return s.UpdateSignatureCertificate(sc) }, Ref: func(m *c18Model) { m.signer = sc.RawCertificate }})
-	locs := []*core.CRLLocations{{CRLDistributionPoints: []string{"http://a/x.crl", "http://b/y.crl"}}, {CRLUrl: "http://c/z.crl"}}
+	locs := []*core.CRLLocations{{CRLDistributionPoints: []string{"http://b/y.crl", "http://a/x.crl"}}, {CRLUrl: "http://c/z.crl"}}
 	for i, l := range locs {
 		l := l
 		v.ops = append(v.ops, c18Op{Name: fmt.Sprintf("locations(%d)", i), Do: func(s crlstore.CRLStore) error { return s.UpdateCRLLocations(l) }, Ref: func(m *c18Model) { m.locs = l }})
@@ -428,6 +428,10 @@ func c18Shapes(chk *fw.Check) int {
 		"empty-list": {CRLDistributionPoints: []string{}},
 		"file":       {CRLFile: "/tmp/x y/ü.crl"},
 		"long":       {CRLDistributionPoints: []string{strings.Repeat("http://x/", 500)}},
+		// order and repetition of distribution points are part of the value (the loader tries them in this order)
+		"unsorted":           {CRLDistributionPoints: []string{"ldap://z/cn=crl", "http://primary.test/x.crl", "http://backup.test/x.crl"}},
+		"repeated":           {CRLDistributionPoints: []string{"http://b/y.crl", "http://a/x.crl", "http://b/y.crl"}},
+		"url+file+points":    {CRLUrl: "http://c/z.crl", CRLFile: "/var/crl/z.crl", CRLDistributionPoints: []string{"http://q/2.crl", "http://q/1.crl"}},
 	}
 	for mn, mi := range metaShapes {
 		for ln, lo := range locShapes {
